@@ -10,6 +10,8 @@
 #include <map>
 #include <random>
 #include <string>
+#include <tuple>
+#include <type_traits>
 #include <vector>
 
 namespace
@@ -179,18 +181,53 @@ static unsigned long draw_unsigned(unsigned long a, unsigned long b)
     if (getenv("SBV_DEBUG")) fprintf(stderr, "udist %s [%lu,%lu] -> %lu\n", nm.c_str(), a, b, r);
     return r;
 }
+// mode 2: the draw is a function of (engine state, a, b); a std::minstd_rand engine advances by one real step
+template <class tengine>
+static bool draw_memo(tengine& engine, unsigned long a, unsigned long b, unsigned long*& slot)
+{
+    static std::map<std::tuple<unsigned long, unsigned long, unsigned long>, unsigned long> memo;
+    if (contract_mode["udist"] != 2) return false;
+    if constexpr (std::is_same_v<tengine, std::minstd_rand>)
+    {
+        unsigned long state;
+        static_assert(sizeof(engine) == sizeof(state));
+        std::memcpy(&state, &engine, sizeof(state));
+        engine();
+        const auto key = std::make_tuple(state, a, b);
+        const auto it  = memo.find(key);
+        if (it != memo.end())
+        {
+            slot = &it->second;
+            return true;
+        }
+        slot  = &memo[key];
+        *slot = b + 1; // marker: to be drawn
+        return true;
+    }
+    else
+    {
+        fprintf(stderr, "udist contract mode 2 needs a std::minstd_rand engine\n");
+        abort();
+    }
+}
 #define SBV_UDIST(ENGINE)                                                                                                                  \
     template <>                                                                                                                            \
     template <>                                                                                                                            \
-    long std::uniform_int_distribution<long>::operator()(ENGINE&, const param_type& p)                                                     \
+    long std::uniform_int_distribution<long>::operator()(ENGINE& e, const param_type& p)                                                   \
     {                                                                                                                                      \
-        return draw_signed(p.a(), p.b());                                                                                                  \
+        unsigned long* slot = nullptr;                                                                                                     \
+        if (!draw_memo(e, (unsigned long)p.a(), (unsigned long)p.b(), slot)) return draw_signed(p.a(), p.b());                             \
+        if (*slot == (unsigned long)p.b() + 1) *slot = (unsigned long)draw_signed(p.a(), p.b());                                           \
+        return (long)*slot;                                                                                                                \
     }                                                                                                                                      \
     template <>                                                                                                                            \
     template <>                                                                                                                            \
-    unsigned long std::uniform_int_distribution<unsigned long>::operator()(ENGINE&, const param_type& p)                                   \
+    unsigned long std::uniform_int_distribution<unsigned long>::operator()(ENGINE& e, const param_type& p)                                 \
     {                                                                                                                                      \
-        return draw_unsigned(p.a(), p.b());                                                                                                \
+        unsigned long* slot = nullptr;                                                                                                     \
+        if (!draw_memo(e, p.a(), p.b(), slot)) return draw_unsigned(p.a(), p.b());                                                         \
+        if (*slot == p.b() + 1) *slot = draw_unsigned(p.a(), p.b());                                                                       \
+        return *slot;                                                                                                                      \
     }
 // contract mirror of std::discrete_distribution: an arbitrary index of positive probability (replay: the recorded index)
 static long draw_discrete(const std::vector<double>& prob)
